@@ -15,6 +15,7 @@ import (
 // match, by a clamped length or by a constant other than one desynchronises the position from the
 // node for every key longer than the inline prefix.
 func ruleR46(c *Ctx) {
+	defer c.r46AbsoluteKeys()
 	m := c.m
 	info := m.Info
 	n := 0
@@ -228,4 +229,104 @@ func (c *Ctx) positionFromHelper(u *FuncUnit, v *types.Var, rhs ast.Expr) string
 		return "the position handed back by " + cu.Name + ": its own position argument, advanced by the compressed-path length"
 	}
 	return ""
+}
+
+// r46AbsoluteKeys – second clause of R46 (C04, C01, C11): a helper that compares a key argument
+// with the key of a stored leaf AT THE SAME INDEX (prefixMismatch: leafKey[depth+i] != key[depth+i])
+// needs the whole key and the absolute position; a caller that consumes its key as it descends
+// (rest = rest[n:]) and hands over the remainder with position 0 reads the leaf at the wrong
+// offset as soon as the compressed path is longer than the bytes stored in the node.
+func (c *Ctx) r46AbsoluteKeys() {
+	m := c.m
+	info := m.Info
+	props := []string{"C04", "C01", "C11"}
+	n := 0
+	for _, cu := range c.sortedUnits() {
+		if cu.Lit != nil || cu.Decl == nil || cu.Body == nil || cu.Type.Params == nil {
+			continue
+		}
+		// byte-slice parameters compared with a leaf's key at one and the same index
+		var keyParams []int
+		var ps []*types.Var
+		for _, f := range cu.Type.Params.List {
+			for _, nm := range f.Names {
+				v, _ := info.Defs[nm].(*types.Var)
+				ps = append(ps, v)
+			}
+		}
+		leafDerived := func(e ast.Expr) bool {
+			d := ast.Unparen(m.throughLocals(cu, ast.Unparen(e)))
+			call, ok := d.(*ast.CallExpr)
+			if !ok {
+				return false
+			}
+			sel, ok := ast.Unparen(call.Fun).(*ast.SelectorExpr)
+			return ok && (sel.Sel.Name == "getTransformKey" || sel.Sel.Name == "getKey")
+		}
+		ast.Inspect(cu.Body, func(x ast.Node) bool {
+			be, ok := x.(*ast.BinaryExpr)
+			if !ok || (be.Op != token.NEQ && be.Op != token.EQL) {
+				return true
+			}
+			ix, okX := ast.Unparen(be.X).(*ast.IndexExpr)
+			iy, okY := ast.Unparen(be.Y).(*ast.IndexExpr)
+			if !okX || !okY || exprText(ix.Index) != exprText(iy.Index) {
+				return true
+			}
+			for _, pair := range [][2]*ast.IndexExpr{{ix, iy}, {iy, ix}} {
+				if !leafDerived(pair[0].X) {
+					continue
+				}
+				pv := identVar(info, pair[1].X)
+				for i, p := range ps {
+					if p != nil && p == pv && isByteSliceType(p.Type()) && !assignedAnywhere(info, cu.Body, p) {
+						keyParams = append(keyParams, i)
+					}
+				}
+			}
+			return true
+		})
+		if len(keyParams) == 0 {
+			continue
+		}
+		for _, site := range c.callSitesOf(cu) {
+			for _, pi := range keyParams {
+				if pi >= len(site.call.Args) {
+					continue
+				}
+				n++
+				arg := ast.Unparen(site.call.Args[pi])
+				key := fmt.Sprintf("%s hands %s the whole key", site.u.Name, cu.Name)
+				why := ""
+				if se, ok := arg.(*ast.SliceExpr); ok && se.Low != nil {
+					if tv, has := info.Types[se.Low]; !has || tv.Value == nil || tv.Value.ExactString() != "0" {
+						why = "the argument " + types.ExprString(arg) + " starts behind the beginning of the key"
+					}
+				}
+				if v := identVar(info, arg); v != nil && why == "" {
+					ast.Inspect(site.u.Body, func(x ast.Node) bool {
+						as, ok := x.(*ast.AssignStmt)
+						if !ok || len(as.Lhs) != len(as.Rhs) {
+							return true
+						}
+						for i, l := range as.Lhs {
+							if identVar(info, l) != v {
+								continue
+							}
+							if se, ok := ast.Unparen(as.Rhs[i]).(*ast.SliceExpr); ok && identVar(info, se.X) == v && se.Low != nil {
+								why = fmt.Sprintf("%s is consumed from the front on the way down (%s)", v.Name(), m.pos(as.Pos()))
+							}
+						}
+						return true
+					})
+				}
+				if why == "" {
+					c.r.ok("R46", key, m.pos(site.call.Pos()), "the key argument is never cut at the front", props...)
+				} else {
+					c.r.bad("R46", key, m.pos(site.call.Pos()), why+": "+cu.Name+" compares it with the key of a stored leaf at the same index, which is only right for the whole key and the absolute position – with a compressed path longer than the bytes kept in the node the leaf is read at the wrong offset", props...)
+				}
+			}
+		}
+	}
+	c.r.note("R46: %d calls of helpers that compare a key argument with a stored key index by index", n)
 }
